@@ -9,6 +9,16 @@ WRAPS = ["ares_tvnow", "ares_rand_bytes", "ares_generate_new_id",
          "ares_close_connection", "ares_metrics_record", "ares_parse_into_addrinfo",
          "ares_parse_ptr_reply_dnsrec", "ares_check_cleanup_conns", "ares_servers_update"]
 
+# the model follows the tree under test: ares_cancel() marks the queries it has taken
+# (fixes/C01-cancel-complete.patch) or not yet
+import os
+try:
+    import vlib
+    _hdr = open(os.path.join(vlib.REPO, "src", "lib", "ares_private.h")).read()
+    os.environ["C01_CANCELMARK"] = "1" if "cancelled;" in _hdr else "0"
+except Exception:
+    pass
+
 PROP = Property(
     pid="C01",
     properties_v="Properties/Properties_C01.v",
